@@ -254,6 +254,8 @@ Step == /\ l <= Len(Evs)
         /\ l' = l + 1 /\ UNCHANGED proj
 
 (* ---------------- final state ------------------------------------------------------------- *)
+\* a milestone the user pinned outside the project window is reported where the user put it
+UserPinnedMs(t) == T(t).effort = 0 /\ (T(t).pin >= 0 \/ T(t).pinEnd >= 0)
 Conts == {c \in 1..NT : ~T(c).leaf /\ Kids(c) # {}}
 FinalBad(F) ==
      \* C10 on the state read through the API
@@ -261,7 +263,7 @@ FinalBad(F) ==
                  /\ (F[c].sched => (F[c].start = MinOf({F[k].start : k \in Kids(c)})
                                     /\ F[c].end = MaxOf({F[k].end : k \in Kids(c)}))), <<"C10", l, "final: container differs from children", c>>) : c \in Conts}
      \* C11: every leaf ends up scheduled inside the horizon, or unscheduled with a warning
-     \cup UNION {Flag(IF F[t].sched THEN 0 <= F[t].start /\ F[t].start <= F[t].end /\ F[t].end <= P.N * G
+     \cup UNION {Flag(IF F[t].sched THEN F[t].start <= F[t].end /\ (UserPinnedMs(t) \/ (0 <= F[t].start /\ F[t].end <= P.N * G))
                        ELSE Len(TR.warns) > 0, <<"C11", l, "final: leaf neither scheduled in horizon nor warned", t>>) : t \in Leafs}
      \* C05 over every counter of the whole horizon
      \cup UNION {Flag(P05At(lsec, k), <<"C05", l, "final: limit exceeded", {k}>>) : k \in DOMAIN lsec}
